@@ -77,6 +77,8 @@ def run(ctx):
     from .. import rules_filters as RF
     ctx.rule('R7.8', 'a filter that keeps the previous statement uses only str() of it (its token list may be a spent generator)', floor=1)
     RF.check_retained_statement(ctx, 'R7.8')
+    ctx.rule('R7.10', 'a group handler finds the delimiter of every group of its class (literal in the handler vs M_OPEN/M_CLOSE): a lookup that comes back empty is dereferenced', floor=2)
+    RF.check_handler_tables(ctx, 'R7.10')
     ctx.rule('R7.9', 'a fixed-length table is not indexed with an unbounded run-time quantity', floor=1)
     RF.check_fixed_tables(ctx, 'R7.9', reach)
     from .. import rules_base as RB
@@ -163,7 +165,7 @@ def _reverse_callers_pass_no_end(ctx, f):
 # ---------------------------------------------------------------------------
 # R7.2 options
 
-WEIRD = [None, True, False, 0, 1, -1, 2, 7, 10 ** 6, 2.5, 'x', '', 'upper', 'Upper', 'php', 'sql', '5', '-3', [], [1], {}, (1,), b'x']
+WEIRD = [None, True, False, 0, 1, -1, 2, 7, 10 ** 6, 2.5, float('inf'), float('nan'), 'x', '', 'upper', 'Upper', 'php', 'sql', '5', '-3', 'inf', [], [1], {}, (1,), b'x']
 NORMAL_FORM = {
     'indent_width': lambda v: isinstance(v, int) and not isinstance(v, bool) and v >= 1,
     'wrap_after': lambda v: isinstance(v, int) and not isinstance(v, bool) and v >= 0,
